@@ -485,6 +485,12 @@ def body(draw, env, depth, n_min=1, n_max=None, need_consuming=True, first_must_
             # (no char-append among foreach actions: the reference does not say whether the triggering byte counts as consumed when it overflows)
             acts = [a for a in [draw(action(env, allow=("assign", "hook", "delete", "assignstr"), last_ok=cfg.allow_last))
                                 for _ in range(draw(st.integers(1, 2)))] if a is not None]
+            if cfg.allow_last and draw(st.booleans()):
+                # per-byte decision on the byte itself: if $last ... { <actions that do not read $last> }
+                inner = [a for a in [draw(action(env, allow=("assign", "assignstr", "delete"), last_ok=False))] if a is not None]
+                if inner:
+                    cond = ("bin", draw(st.sampled_from([">=", "<", "==", "!="])), ("last",), ("num", draw(st.sampled_from([48, 97, 98, 100, 128])), "dec"))
+                    acts.append(("if", ((cond, tuple(inner)),), None))
             if acts:
                 push(("foreach", b, tuple(acts)))
             else:
@@ -731,4 +737,46 @@ def break_loop_program(draw):
         head = tok * (k + extra) + sep
         for t in (b"end", tok + b"!", b"e.", b".", b"abc."):
             datas.append(head + t)
+    return prog, datas
+
+
+# ------------------------------------------------------------------------------------------------ focused family: per-byte decisions on $last
+
+@st.composite
+def last_foreach_program(draw):
+    """<lead>; foreach { <wildcard-ish field> } do { n0 = [n0 + 1]; if $last OP v { n1 = [n1 + 1]; } [hook] } <tail>: what is done for a
+    byte depends on that byte's value, in states that otherwise do not look at their input. Returns (program, inputs)."""
+    from . import ir as _ir
+    v = draw(st.sampled_from([0x62, 0x80, 0x30, 0x64]))
+    op = draw(st.sampled_from([">=", "<", "==", "!="]))
+    k = draw(st.integers(1, 4))
+    field_kind = draw(st.sampled_from(["dots", "dots", "binary-any", "rep", "not-z", "class"]))
+    if field_kind == "dots":
+        field = ("re", ("seq", tuple(("any",) for _ in range(k))) if k > 1 else ("any",), False)
+    elif field_kind == "binary-any":
+        field = ("re", ("seq", tuple(("any",) for _ in range(k))) if k > 1 else ("any",), True)
+    elif field_kind == "rep":
+        field = ("re", ("rep", ("any",), k, None), False)
+    elif field_kind == "not-z":
+        field = ("re", ("op", ("set", (("c", 0x7a),), True), "+"), False)
+    else:
+        field = ("re", ("rep", ("set", (("r", 0x30, 0x39), ("r", 0x61, 0x66), ("c", 0x80 if False else 0x5f)), False), k, None), False)
+    acts = [("assign", "n0", ("bin", "+", ("var", "n0"), ("num", 1, "dec"))),
+            ("if", ((("bin", op, ("last",), ("num", v, "dec")), (("assign", "n1", ("bin", "+", ("var", "n1"), ("num", 1, "dec"))),)),), None)]
+    if draw(st.booleans()):
+        acts = acts[1:]
+    if draw(st.integers(0, 3)) == 0:
+        acts.append(("hook", "h0"))
+    lead = draw(st.sampled_from([(), (("match", ("lit", b"a", "str")),), (("match", ("re", ("set", (("r", 0x61, 0x63),), False), False)),)]))
+    tail = (("match", ("lit", b"z", "str")),)
+    body = lead + (("foreach", (("match", field),), tuple(acts)),) + tail
+    prog = _ir.Program([("int", "n0", False, 2, 0), ("int", "n1", False, 2, 0)], ["h0"], [], [], [], body, [draw(st.sampled_from(OPT_LEVELS))])
+    pool = [v - 1, v, v + 1, 0x61, 0x39] if v < 0xff else [v - 1, v, 0x61]
+    if field_kind == "class":
+        pool = [0x30, 0x39, 0x61, 0x66, 0x5f, v] if v in (0x30, 0x62, 0x64) else [0x30, 0x61, 0x5f, 0x66]
+    datas = []
+    for _ in range(6):
+        n = k if field_kind in ("dots", "binary-any", "rep", "class") else draw(st.integers(1, 5))
+        mid = bytes(draw(st.lists(st.sampled_from([b for b in pool if b != 0x7a]), min_size=n, max_size=n)))
+        datas.append((b"a" if lead else b"") + mid + b"z")
     return prog, datas
